@@ -25,3 +25,9 @@ SPEC = f'(re.++ (re.opt (str.to_re "v")) {CORE} (re.opt (re.++ (str.to_re "-") {
 # (u64 range is not part of the language obligation; see evidence assumptions.)
 ASCII_NUM = f'(re.+ {DIGIT})'
 PARSES_OK = f'(re.++ (re.opt (str.to_re "v")) {ASCII_NUM} {DOT} {ASCII_NUM} {DOT} {ASCII_NUM} (re.opt (re.++ (re.union (str.to_re "-") (str.to_re "+")) re.all)))'
+
+# ---- group structure the Verus contract of `FromStr for SemVer` relies on (unit semver_parts, TRUSTED[semver-regex-groups])
+SKELETON = "^[v]?(major).(minor).(patch)[-(prerelease)]?[+(buildmetadata)]?$"
+GROUPS = {"major": NUMERIC, "minor": NUMERIC, "patch": NUMERIC, "prerelease": PRE, "buildmetadata": BUILD}
+UNIQUE_WHY = ("the core groups hold digits only, so each ends at the next `.` / `-` / `+`; the pre-release group holds no `+`, so it ends at the first `+` "
+              "or at the end; hence every text has at most one decomposition")
